@@ -45,15 +45,15 @@ def reg(p):
 reg(Prop('C01', lambda r, i, t: pc.gen_item(r, i, t, 'C01'), pc.eval_C01, 8000, 600000, RULE_COMPUTE, ASSUME_COMPUTE,
          ['C01_run_partition', 'C01_step_adds_exactly', 'C01_assigned_iff', 'C01_dropped_whole', 'C01_assigned_once', 'C01_default_min_lt', 'C01_default_min_old_iff', 'C01_default_min_old_witness']))
 reg(Prop('C02', lambda r, i, t: pc.gen_item_C02(r, i, t, 'C02'), pc.eval_C02, 6000, 300000, RULE_COMPUTE, ASSUME_COMPUTE,
-         ['C02_arity', 'C02_iteration_is_prefix_order', 'C02_parent_before_child', 'C02_temp_ids_unique', 'C02_final_ids']))
+         ['C02_arity', 'C02_iteration_is_prefix_order', 'C02_parent_before_child', 'C02_temp_ids_unique', 'C02_final_ids', 'C02_compute_ids', 'C02_compute_arity', 'C02_reachable_wellformed']))
 reg(Prop('C03', lambda r, i, t: pc.gen_item(r, i, t, 'C03'), pc.eval_C03, 6000, 400000, RULE_COMPUTE, ASSUME_COMPUTE,
-         ['C03_all_connected', 'C03_roots_closed', 'C03_contour', 'C03_branch_own_le_sub', 'C03_trunk_eq_components']))
+         ['C03_all_connected', 'C03_roots_closed', 'C03_contour', 'C03_branch_own_le_sub', 'C03_trunk_eq_components', 'C03_compute_all_connected']))
 reg(Prop('C04', lambda r, i, t: pc.gen_item(r, i, t, 'C04'), pc.eval_C04, 8000, 600000, RULE_COMPUTE, ASSUME_COMPUTE,
-         ['C04_new_leaf', 'C04_join_one', 'C04_insignificant_iff', 'C04_branch', 'C04_one_remains', 'C04_none_remains', 'C04_unique_of_distinct', 'C04_minDelta_merge', 'C04_minNpix', 'C04_allTrue', 'C04_seeds_exact']))
+         ['C04_new_leaf', 'C04_join_one', 'C04_insignificant_iff', 'C04_branch', 'C04_one_remains', 'C04_none_remains', 'C04_unique_of_distinct', 'C04_minDelta_merge', 'C04_minNpix', 'C04_allTrue', 'C04_seeds_exact', 'C04_sorted_check_sound', 'C04_nodup_check_sound', 'C04_cover_check_sound', 'C04_strict_of_distinct']))
 reg(Prop('C05', lambda r, i, t: pc.gen_item(r, i, t, 'C05'), pc.eval_C05, 6000, 400000, RULE_COMPUTE, ASSUME_COMPUTE,
          ['C05_parented_leaf_significant', 'C05_meeting_pixel', 'C05_builtin', 'C05_orphan_leaf', 'C05_leaf_peak_regmax', 'C05_leaves_distinct_maxima', 'C05_regmax_has_leaf']))
 reg(Prop('C06', lambda r, i, t: pc.gen_item_C06(r, i, t, 'C06'), pc.eval_C06, 5000, 250000, RULE_COMPUTE, ASSUME_COMPUTE,
-         ['C06_label_iff', 'C06_unlabelled_iff', 'C06_indices_own', 'C06_indices_subtree', 'C06_npix_subtree', 'C06_vmax_add', 'C06_vmin_add', 'C06_vmax_merge', 'C06_vmin_merge', 'C06_vmax_is_max', 'C06_vmin_is_min', 'C06_peak_own', 'C06_peak_subtree']))
+         ['C06_label_iff', 'C06_unlabelled_iff', 'C06_indices_own', 'C06_indices_subtree', 'C06_npix_subtree', 'C06_vmax_add', 'C06_vmin_add', 'C06_vmax_merge', 'C06_vmin_merge', 'C06_vmax_is_max', 'C06_vmin_is_min', 'C06_peak_own', 'C06_peak_subtree', 'C06_compute_wf', 'C06_prune_wf']))
 
 HOOK_COMMITS = ['15057e9']
 LEVEL_TEXT = {
@@ -153,7 +153,7 @@ reg(Prop('C09', pio.gen_item_C09, pio.eval_C09, 2500, 60000,
 reg(Prop('C18', pio.gen_item_C18, pio.eval_C18, 2500, 100000,
          "seeded dendrograms (computed / pruned / loaded), default and custom sort keys (id table, negated peak, pixel count), reverse on/off, "
          "a selected structure given as object / id / list with and without subtree, contour masks captured at Axes.contour; positions and "
-         "line segments compared with the model (exact rationals)", ASSUME_IO, ['C18_sorted_by_key', 'C18_leaf_positions', 'C18_subtree_contiguous', 'C18_branch_between', 'C18_lines_vertical', 'C18_lines_mapping', 'C18_lines_count']))
+         "line segments compared with the model (exact rationals)", ASSUME_IO, ['C18_sorted_by_key', 'C18_leaf_positions', 'C18_subtree_contiguous', 'C18_branch_between', 'C18_lines_vertical', 'C18_lines_mapping', 'C18_lines_count', 'C18_disjoint_subtrees', 'C18_child_within_span']))
 
 reg(Prop('C11', pa.gen_item_C11, pa.eval_C11, 4000, 300000,
          "seeded pixel sets in 3-D (all three vaxis) and 2-D, with / without spatial_scale and velocity_scale, linear WCS, metadata omissions "
